@@ -518,7 +518,7 @@ func field(mode, i, n, L int) string {
 var Prop = &harness.Prop{
 	ID:          "C02",
 	Level:       "exploration",
-	Rule:        "encryption: full product keys x plaintext lengths x nonces (k=1,2,n-1, patterns, 1-byte reads, and per key the first k whose C1 / shared point has a coordinate with a leading zero byte) x {C1C3C2, C1C2C3, ASN.1}: ciphertext bytes equal the independent GM/T 0003.4 reference, randomness consumed = 40 bytes, the STANDARD ciphertext decrypts to the plaintext; empty plaintext must return within a 64-nonce budget; the retry branch is driven by nonces found by search whose KDF output for a 1-byte plaintext is all zero (the next nonce's ciphertext and 80 consumed bytes are required). forgeries (fault enumeration): every single-byte substitution from {b^1,b^0x80,00,ff} and every truncation of valid ciphertexts in all three forms, ciphertext for another key, C1=(0,0), and C1 of order 2 and 3 on curves b'!=b with C2/C3 built for every guess of d mod q: an error is required. Distinct/non-trivial = distinct case labels / distinct mutated inputs. The invalid-curve ciphertexts go through every decryption entry point (both orderings, DecryptAsn1, PrivateKey.DecryptAsn1, crypto.Decrypter).",
+	Rule:        "encryption: full product keys x plaintext lengths x nonces (k=1,2,n-1, patterns, 1-byte reads, and per key the first k whose C1 / shared point has a coordinate with a leading zero byte) x {C1C3C2, C1C2C3, ASN.1}: ciphertext bytes equal the independent GM/T 0003.4 reference, randomness consumed = 40 bytes, the STANDARD ciphertext decrypts to the plaintext; empty plaintext must return within a 64-nonce budget; the retry branch is driven by nonces found by search whose KDF output for a 1-byte plaintext is all zero (the next nonce's ciphertext and 80 consumed bytes are required). forgeries (fault enumeration): every single-byte substitution from {b^1,b^0x80,00,ff} and every truncation of valid ciphertexts in all three forms, ciphertext for another key, C1=(0,0), and C1 of order 2 and 3 on curves b'!=b with C2/C3 built for every guess of d mod q: an error is required. Distinct/non-trivial = distinct case labels / distinct mutated inputs. The invalid-curve ciphertexts go through every decryption entry point (both orderings, DecryptAsn1, PrivateKey.DecryptAsn1, crypto.Decrypter). Results stay the caller's: the last 32 returned ciphertexts / plaintexts are compared again after every later call.",
 	Assumptions: []string{"refsm2/refsm3 correct (GM/T 0003.5 examples)", "nonce k = int(40 bytes) mod (n-1) + 1", "the leading point-format byte 0x04 is not mutated (the statement does not list it)"},
 	Bounds: func(tier string) string {
 		if tier == "thorough" {
